@@ -442,7 +442,7 @@ def hist_build(case):
                            'contribs': ['abs']})
 
 
-def _mix_eval(r, live, fresh, sig):
+def _mix_eval(r, live, fresh, sig, net=None):
     lc, fc = live.chemistry, fresh.chemistry
     r.check(list(lc.activeGases) == list(fc.activeGases) and list(lc.inactiveGases) == list(fc.inactiveGases),
             'history-gas-lists', 'history-gases/' + sig)
@@ -459,6 +459,14 @@ def _mix_eval(r, live, fresh, sig):
         h2, he = li[names.index('H2')], li[names.index('He')]
         want = live.fittingParameters['He_H2'][2]()
         r.eq(he / h2, np.full_like(h2, want), 'history-fill-ratio', 'history-fill-ratio/' + sig, rtol=1e-9)
+        # ... and the ratio that was asked for (not what the object reports back)
+        for key, gas in (('He_H2', 'He'), ('N2_H2', 'N2')):
+            if net and key in net and gas in names:
+                r.eq(li[names.index(gas)] / h2, np.full_like(h2, float(net[key])), 'history-fill-ratio',
+                     'history-fill-ratio-requested/' + sig, rtol=1e-9, requested=net[key])
+
+
+_mix_eval.wants_net = True
 
 
 def hist_fn(case):
